@@ -218,7 +218,7 @@ def main(argv: list[str]) -> int:
         v.notes.append("%d runs skipped: worker processes could not be started in time" % nmach)
     if nmach > len(jobs) // 3:
         raise MachineryError("too many runs could not start their workers (%d)" % nmach)
-    if nruns == 0 or tv["validated"] == 0:
+    if nruns == 0 or (tv["validated"] == 0 and not tv["rejected"]):
         raise MachineryError("conformance step did not run")
     coverage = {
         "states": states, "transitions": transitions, "traces_validated_against_impl": tv["validated"],
